@@ -9,5 +9,5 @@ def progs(ctx):
 
 
 def check(ctx):
-    return SC.run(ctx, "C08", ["Oq3.Props.C08"], [OB], progs(ctx),
+    return SC.run(ctx, "C08", ["Oq3.Props.C08", "Oq3.Props.C08Prog"], [OB], progs(ctx),
                   "generated programs + declaration/arithmetic programs over operand type pairs x widths x const; oracle: typing rules re-derived per graph node (literal, cast, measure, unary, arithmetic common type and operand casts, identifiers, gate operands, calls, return), declaration and assignment decision tables, no silent downward conversion")
